@@ -14,11 +14,11 @@ never reported as violations).
 import time
 import z3
 from ..harness import Harness, Built, path_index
-from ..seq import bmc, Unroll
+from ..seq import Unroll, cosim
 
 PROP = "C24"
 LEVEL = "model_checking"
-TECHNIQUE = "BMC from reset against a z3 dictionary model + one-step induction under the invariant 'valid keys pairwise distinct'; pysim replay"
+TECHNIQUE = "BMC from reset against a z3 dictionary model (one query per cycle, earlier cycles as proven lemmas) + one-step induction under the invariant 'valid keys pairwise distinct'; pysim replay"
 BOUNDS = {
     "quick": "entries 2,3 (2-bit key, 2-bit data; entries 2 also with a 2-field key and 1-bit data): BMC 6 cycles from reset, every subset of simultaneous "
              "read/write/remove/push calls, all keys/data; induction step for entries 2,3,4",
@@ -102,9 +102,10 @@ def _step(cfg):
                "read miss while another key is stored": z3.And(o.done("read"), z3.Not(rf), z3.Not(z3.And(*[z3.Not(v) for v, _, _ in slots]))),
                "write hit that changes the data": z3.And(o.done("write"), wf, wd != _lookup(slots, wk, dw)[1]),
                "remove hit": z3.And(o.done("remove"), mf),
-               "push, write hit and remove hit in the same cycle": z3.And(o.done("push"), o.done("write"), wf, o.done("remove"), mf),
                "write and remove of the same stored key in one cycle": z3.And(o.done("write"), o.done("remove"), wf, wk == mk)}
         if n > 1:
+            wit["push, write hit and remove hit in the same cycle"] = z3.And(o.done("push"), o.done("write"), wf, o.done("remove"), mf)
+        if n > 1 and n < (1 << kw):      # a full memory must leave an absent key to push
             wit["push refused although a remove hits in the same cycle (full)"] = z3.And(o.en("push"), full, o.done("remove"), mf)
         return ob, asm, new, wit
 
@@ -130,6 +131,42 @@ def _distinct(slots):
     return z3.And(*cs) if cs else z3.BoolVal(True)
 
 
+def _bmc_lemmas(ctx, name, built, K, step, init_model, cosim_k=0):
+    """BMC like vf.seq.bmc, but one query per cycle with the obligations of earlier cycles added as lemmas (each was
+    proved under a subset of the current assumptions before it is used); stops at the first failing cycle."""
+    u = Unroll(built)
+    model, asm, per_cycle, wit = init_model(built.h), [], [], {}
+    for t in range(K):
+        o = u.cycle()
+        ob, a, model, w = step(model, o, t)
+        asm += a
+        per_cycle.append((ob, list(asm)))
+        for k, c in (w or {}).items():
+            wit.setdefault(k, []).append(c)
+        u.advance()
+    ctx.frames += K + 1
+    ctx.steps += K
+    for k, cs in wit.items():
+        ctx.witness(f"{name}: reach '{k}' within {K} cycles", asm + [z3.Or(*cs)])
+    bad = [z3.Not(z3.And(*[c for _, c in ob])) for ob, _ in per_cycle]
+    lemmas = []
+    for t, (ob, asm_t) in enumerate(per_cycle):
+        def detail(m, ob=ob, t=t):
+            return [f"cycle {t}: {lab}" for lab, c in ob if z3.is_false(m.eval(c, model_completion=True))]
+
+        r = ctx.refute(f"{name}: all obligations of cycle {t} (BMC from reset)", asm_t + lemmas + [bad[t]], u, detail, bad_by_cycle=bad)
+        if r is not True:
+            return r
+        lemmas += [c for _, c in ob]
+    if cosim_k:
+        pts, mism = cosim(built, cosim_k, ctx.seed)
+        ctx.cosim_points += pts
+        ctx.cosim_traces += 1
+        if mism:
+            ctx.errors.append(f"cosim mismatch encoder vs pysim in cfg {ctx.cfg}: {mism[:4]}")
+    return True
+
+
 def run(cfg, ctx):
     b = Built(lambda: make(cfg), trace_functions=(ctx.index == 0))
     ctx.functions = b.functions
@@ -138,7 +175,7 @@ def run(cfg, ctx):
     name = f"CAM entries={n} key {kw}b data {dw}b"
     if cfg["mode"] == "bmc":
         init = lambda h: [(z3.BoolVal(False), z3.BitVecVal(0, kw), z3.BitVecVal(0, dw))] * n
-        bmc(ctx, f"{name} vs dictionary model", b, cfg["K"], _step(cfg), init, cosim_k=12 if ctx.index < 3 else 0)
+        _bmc_lemmas(ctx, f"{name} vs dictionary model", b, cfg["K"], _step(cfg), init, cosim_k=12 if ctx.index < 3 else 0)
         return
     # one-step induction: any state with pairwise distinct valid keys; model state = the visible registers
     u = Unroll(b, free_init=True)
@@ -161,8 +198,9 @@ def run(cfg, ctx):
               z3.And(fi == fm, z3.Implies(fm, di == dm), cnt(slots2) == cnt(new)))]
     ctx.witness(f"IND {name}: invariant satisfiable with a full memory while read, write and remove run",
                 asm + [pre, z3.And(*[v for v, _, _ in slots]), o.done("read"), o.done("write"), o.done("remove")])
-    ctx.witness(f"IND {name}: push runs together with a remove hit",
-                asm + [pre, o.done("push"), o.done("remove"), _lookup(slots, o.arg("remove", "addr"), dw)[0]])
+    if n > 1:
+        ctx.witness(f"IND {name}: push runs together with a remove hit",
+                    asm + [pre, o.done("push"), o.done("remove"), _lookup(slots, o.arg("remove", "addr"), dw)[0]])
     u0 = Unroll(b)
     o0 = u0.cycle()
     s0 = _state_obs(b, o0, cfg)
